@@ -293,6 +293,29 @@ def rule_e(ctx):
   ctx.ob('C15.e', ev.fq + '#update-per-individual', not problems,
          'recovery applies population_update once per restored individual (inside the replay loop), like the '
          'live feedback path', ev.loc, '; '.join(problems))
+  # (1b) the step handed to population_update is the feedback count BEFORE this individual
+  # is counted, as on the live path (DNAGenerator.feedback advances the counter after
+  # _feedback returned): the counter is not advanced on the way to the update
+  g2 = C.cfg_of(ev.node)
+  upd_calls = [k for k in g2.nodes if k.ast is not None and any(
+      A.call_name(c) == 'self._population_update' or 'self._population_update(' in htext(c) for c in k.calls())]
+  incs = {k.id for k in g2.nodes if k.kind == 'stmt' and isinstance(k.ast, ast.AugAssign)
+          and A.unparse(k.ast.target) == 'self._num_feedbacks'}
+  heads2 = [k for k in g2.nodes if k.kind == 'iter']
+  problems = []
+  if upd_calls and heads2:
+    for m2, lab in heads2[0].succ:
+      if lab in ('true', 'body', 'next'):
+        seen2, _ = g2.reach(m2, blocked_nodes=incs, follow_exc=False)
+        seen2.add(m2.id)
+        if not any(u.id in seen2 for u in upd_calls):
+          problems.append('population_update is reached only after the feedback counter was advanced: it is called '
+                          'with step = n+1 where the live path used step = n')
+  else:
+    problems.append('population_update / replay loop not found')
+  ctx.ob('C15.e', ev.fq + '#update-step', not problems,
+         'recovery calls population_update with the same step as the live path (before the individual is counted)',
+         ev.loc, '; '.join(problems))
   # (2) thresholds: the live path tests before the counter is advanced (size - 1);
   # recovery tests after (no offset)
   SIZE = '_init_population_size'
@@ -389,6 +412,21 @@ def rule_c(ctx):
   ctx.ob('C15.c', base.fq, ok,
          'the default recover advances the proposal counter per DNA and the feedback counter per '
          'fed-back DNA', base.loc, 'counter bookkeeping changed')
+  # ... for EVERY fed-back DNA: feedback() counts every call, also for generators that
+  # ignore rewards, so with a reward nothing else may stand before the increment
+  gb = C.cfg_of(base.node)
+  rtb = [k for k in gb.nodes if k.kind == 'test' and A.unparse(k.ast) == f'{RV0} is not None']
+  headsb = [k for k in gb.nodes if k.kind == 'iter']
+  advb = lambda k: k.kind == 'stmt' and isinstance(k.ast, ast.AugAssign) and A.unparse(k.ast.target) == 'self._num_feedbacks'
+  wb = 'reward test / loop not found'
+  if rtb and headsb:
+    wb = None
+    for m2, lab in rtb[0].succ:
+      if lab == 'true' and not advb(m2):
+        wb = gb.can_skip(m2, advb, to=headsb[0])
+  ctx.ob('C15.c', base.fq + '#feedback-counter-paths', wb is None,
+         'every fed-back DNA of the history advances the feedback counter (as feedback() does for every call)',
+         base.loc, f'a path with a reward skips the counter: {wb}')
   n = 0
   for c in generators(idx):
     m = c.methods.get('recover')
